@@ -9,16 +9,7 @@ from .symex import Frame, Interp, MAX_CALL_DEPTH, _and, _or, _not, _as_int, _z3b
 from .symex_eval import EvalMixin, SliceVal, MSet, sym_min, sym_max, sym_abs, _z
 
 
-class LoopSpec:
-    """Contract for one loop of a function: variable sorts for the havoc and the inductive invariant.
-
-    ``inv(ns, k)`` receives a namespace of the loop-carried variables (by name) and the number ``k`` of iterations
-    completed; ``vars`` maps variable name -> sort ('int' | 'bool' | 'optint' | 'intlist' | 'pairlist' | callable)."""
-
-    def __init__(self, vars, inv, label="", decreases=None):
-        self.vars = vars
-        self.inv = inv
-        self.label = label
+from .spec import LoopSpec  # noqa
 
 
 class StmtMixin:
@@ -325,11 +316,14 @@ class StmtMixin:
         self.prove(f"{base}/inv-init", _b(spec.inv(self, ns0, _z(start), frame)))
         mode = self.decide([True, True])  # 0: arbitrary iteration, 1: exit
         k = self.fresh_int("k")
+        self.ghost[f"{base}/k"] = k
         self.havoc_loop_vars(spec, frame)
         ns = self._loop_namespace(spec, frame)
         if mode == 0:
             self.assume(z3.And(k >= _z(start), k < _z(n)))
             self.assume(_b(spec.inv(self, ns, k, frame)))
+            if spec.hints is not None:
+                self.assume(_b(spec.hints(self, ns, k, frame)))
             if isinstance(itv, SymIter):
                 itv.cursor = k + 1
             self.assign_target(node.target, seq.get(k), frame)
@@ -345,6 +339,8 @@ class StmtMixin:
         else:
             self.assume(k == sym_max(_z(n), _z(start)))
             self.assume(_b(spec.inv(self, ns, k, frame)))
+            if spec.hints is not None:
+                self.assume(_b(spec.hints(self, ns, k, frame)))
             if isinstance(itv, SymIter):
                 itv.cursor = k
             self.exec_block(node.orelse, frame)
@@ -462,7 +458,9 @@ class StmtMixin:
         qual = fi.qualname if fi.outer is None else fi.outer.qualname + ".<locals>." + fi.name
         if fv.self_val is not None:
             args = [fv.self_val] + list(args)
-        if qual in self.summaries and qual not in self.inline_only:
+        if qual in self.summaries and (qual not in self.recursive_only
+                                       or (qual in self.call_stack and not self.concrete_mode)):
+            self.current_callee = fv
             return self.summaries[qual](self, args, kwargs)
         if self.depth >= MAX_CALL_DEPTH:
             raise Unsupported(f"call depth exceeded at {qual} (recursion needs a summary)")
@@ -472,6 +470,7 @@ class StmtMixin:
         if fi.is_generator:
             fr.locals["$yield"] = []
         self.depth += 1
+        self.call_stack.append(qual)
         try:
             try:
                 self.exec_block(fi.node.body, fr)
@@ -480,6 +479,7 @@ class StmtMixin:
                 result = r.value
         finally:
             self.depth -= 1
+            self.call_stack.pop()
         if fi.is_generator:
             return self.make_generator(fr.locals["$yield"])
         return result
